@@ -150,22 +150,22 @@ Proof.
       assert (Hwid : 0 < b_id w < nid).
       { eapply Forall_forall in Hids; [exact Hids|]. apply in_or_app. right. unfold w_list. rewrite Ew. left. reflexivity. }
       (* the provisional persist changes only the index and the ALO counter *)
-      set (pr := if ck && (start =? 0)
+      set (pr := if ck && (start =? 0) && (0 <? b_used w)
                  then let '(r', p) := should_persist m (set_cur r1 i 0) true in
                       (r', if p then persist ts true (b_id w) start else ts)
                  else (set_cur r1 i 0, ts)).
       assert (Hr4 : r_chain (fst pr) = r_chain r1 /\ r_idx (fst pr) = i /\ r_off (fst pr) = 0 /\
                     r_tail_bid (fst pr) = r_tail_bid r1 /\ r_tail_off (fst pr) = r_tail_off r1 /\ r_hydrated (fst pr) = true).
-      { unfold pr. destruct (ck && (start =? 0)).
+      { unfold pr. destruct (ck && (start =? 0) && (0 <? b_used w)).
         - pose proof (should_persist_fields m (set_cur r1 i 0) true) as Hsp.
           destruct (should_persist m (set_cur r1 i 0) true) as [r' p]. cbn [fst]. cbn in Hsp. destruct Hsp as (G1 & G2 & G3 & G4 & G5 & G6).
           repeat split; auto. now rewrite G6.
         - cbn. repeat split; auto. }
       assert (Hts1 : ts_writer (snd pr) = Some w /\ ts_poisoned (snd pr) = false /\ ts_unmodelled (snd pr) = false /\
                      ts_count (snd pr) = ts_count ts /\ (ts_reader (snd pr) = ts_reader ts) /\
-                     ts_index (snd pr) = (if ck && (start =? 0)
+                     ts_index (snd pr) = (if ck && (start =? 0) && (0 <? b_used w)
                                           then Some {| p_tail := true; p_a := b_id w; p_off := start |} else ts_index ts)).
-      { unfold pr. destruct (ck && (start =? 0));
+      { unfold pr. destruct (ck && (start =? 0) && (0 <? b_used w));
           [pose proof (sp_force m (set_cur r1 i 0)) as Hf; destruct (should_persist m (set_cur r1 i 0) true) as [r' p];
            cbn [snd] in Hf; subst p|]; cbn; repeat split; auto. }
       fold pr. destruct pr as [r4 ts1]. cbn [fst snd] in Hr4, Hts1.
@@ -204,9 +204,11 @@ Proof.
            ++ unfold idx'. destruct p.
               { right. left. eexists. split; [reflexivity|]. unfold PosIs. cbn [p_tail p_a p_off]. exists w.
                 rewrite reader_of_mk, chain_of_mk, tail_start_mk, F1, F2, F4, F5, G1, G2, E1, N.eqb_refl.
-                split; [cbn; now rewrite Ew|]. split; [reflexivity|]. split; [exact Hilen|reflexivity]. }
-              cbn [andb] in T6. destruct (start =? 0) eqn:Es0; [|left; cbn [mk_ts ts_index]; exact T6].
-              right. right. exists w. assert (Hs0 : start = 0) by lia.
+                split; [cbn; now rewrite Ew|]. split; [reflexivity|]. split; [exact Hilen|]. split; [reflexivity|].
+                eapply ents_from_cons_nonempty; exact Eef. }
+              cbn [andb] in T6. destruct (start =? 0) eqn:Es0; cbn [andb] in T6; [|left; cbn [mk_ts ts_index]; exact T6].
+              assert (Hs0 : start = 0) by lia. replace (0 <? b_used w) with true in T6 by lia.
+              right. right. exists w.
               split; [reflexivity|]. split; [exact Ew|]. split; [cbn [mk_ts ts_index]; rewrite T6, Hs0; reflexivity|].
               split; [rewrite reader_of_mk, chain_of_mk, F1, F2, G1, G2, E1; exact Hilen|].
               rewrite Hs0, ents_from_0 in Eef. rewrite Eef. split; [exact Hunread|discriminate].
@@ -254,10 +256,11 @@ Proof.
         -- rewrite reader_of_mk. exact G6.
         -- reflexivity.
         -- exact Hur.
-        -- destruct (ck && (start =? 0)) eqn:Eck; rewrite ?Eck in T6.
+        -- destruct (ck && (start =? 0) && (0 <? b_used w)) eqn:Eck; rewrite ?Eck in T6.
            ++ right. left. eexists. split; [cbn [mk_ts ts_index]; exact T6|]. unfold PosIs. cbn [p_tail p_a p_off]. exists w.
               rewrite reader_of_mk, chain_of_mk, tail_start_mk, G1, G2, G4, G5, E1, E4, E5.
-              split; [cbn; now rewrite Ew|]. split; [reflexivity|]. split; [exact Hilen|reflexivity].
+              split; [cbn; now rewrite Ew|]. split; [reflexivity|]. split; [exact Hilen|]. split; [reflexivity|].
+              intros Hwnil. rewrite Hwnil in Hwu. cbn [sum_need] in Hwu. lia.
            ++ left. cbn [mk_ts ts_index]. exact T6.
     + (* no writer yet *)
       assert (Hunread : unread c ts = []).
@@ -445,7 +448,8 @@ Proof.
     unfold PosIs, ts'. cbn [p_tail p_a p_off]. exists wb.
     rewrite reader_of_mk, chain_of_mk, tail_start_mk. cbn [set_tail set_cur r_idx r_chain r_tail_bid r_tail_off].
     rewrite R1, Hid, N.eqb_refl.
-    split; [exact Hwb|]. split; [reflexivity|]. split; reflexivity. }
+    split; [exact Hwb|]. split; [reflexivity|]. split; [reflexivity|]. split; [reflexivity|].
+    eapply okoff_pos_nonempty; [exact Hokt|]. unfold p. apply (parse_plan_tailpos c Hh); [intros Hf; discriminate Hf|exact Esaw]. }
   assert (Hsealed_case : forall r' ix', r_chain r' = chain -> r_tail_bid r' = r_tail_bid (reader_of ts) ->
             r_tail_off r' = r_tail_off (reader_of ts) -> r_hydrated r' = true -> (0 < j)%nat -> ps_saw_tail p = false ->
             let ts' := mk_ts ts (set_cur r' (ps_fin_idx p) (ps_fin_off p)) (Some (cnt ts - N.of_nat j)) ix' in
@@ -567,6 +571,6 @@ Proof.
   intros H. destruct (H cx_cfg (ALO 2) cx_s cx_t true 2 cx_cfg_ok cx_inv) as (ts' & res & Heq & Hidx).
   vm_compute in Heq. injection Heq as Hts _. subst ts'.
   destruct Hidx as [Hi|(p & Hp & Hpos)]; [discriminate|].
-  injection Hp as <-. destruct Hpos as (w & Hw & _ & _ & Hoff).
+  injection Hp as <-. destruct Hpos as (w & Hw & _ & _ & Hoff & _).
   injection Hw as <-. vm_compute in Hoff. discriminate.
 Qed.
